@@ -48,6 +48,13 @@ func (c07FailingMarshaler) MarshalJSON() ([]byte, error) {
 	return nil, fmt.Errorf("cannot marshal this")
 }
 
+// values that are boolean by KIND but not of type bool: the statement says "non-boolean setting"
+type c07Tri bool
+
+type c07TriS bool
+
+func (t c07TriS) String() string { return "tri-state" }
+
 type c07Item struct {
 	Desc  string      `json:"desc"`
 	item  interface{} // what is stored
@@ -825,9 +832,9 @@ func c07Random(c *Ctx, i int, r *gen.R) {
 			}
 		}
 	case 4:
-		s.Skip0 = gen.Pick(r, []interface{}{"yes", 1, 0.0, []bool{true}, struct{}{}})
+		s.Skip0 = gen.Pick(r, []interface{}{"yes", 1, 0.0, []bool{true}, struct{}{}, c07Tri(true), c07Tri(false), new(bool)})
 	case 5:
-		s.Skip[r.Intn(n)] = gen.Pick(r, []interface{}{"true", 1, 'y'})
+		s.Skip[r.Intn(n)] = gen.Pick(r, []interface{}{"true", 1, 'y', c07Tri(true), c07TriS(false)})
 	case 6:
 		// no columns at all
 		s.Header = nil
